@@ -9,6 +9,12 @@
   loop returning Shutdown) does not look at its queue again, while `Poller.Trigger` keeps
   accepting tasks for it.
 
+  Since the fix "registrations handed to an event loop that has exited are aborted" a loop that leaves Polling
+  drains its queue and aborts the registrations in it (closes the descriptor, tells the caller), and whoever hands
+  a registration to a loop that has already exited does the same right away. In this model both are atomic with the
+  exit / the hand-over; that this is what the interleaved protocol amounts to is the theorem `nothing_stranded` of
+  Model/Drain.lean.
+
   Ghost fields record which loop the load balancer chose for a descriptor and where OnOpen ran.
 -/
 namespace Gnet.Handover
@@ -35,6 +41,7 @@ structure State where
   assigned : List (Nat × Nat) := []     -- ghost: (fd, loop the load balancer chose)
   enrolled : List Nat := []             -- descriptors created by Register/Enroll calls that were ACCEPTED (returned nil)
   results : List Nat := []              -- enrolled descriptors whose caller has been given its RegisteredResult
+  failed : List Nat := []               -- ... those of them whose result was an error (registration aborted)
   inShutdown : Bool := false            -- the flag Register/Enroll look at: set when everything has stopped
   deriving Repr
 
@@ -55,18 +62,28 @@ inductive Step where
 
 def setLoop (s : State) (l : Nat) (x : Loop) : State := { s with loops := s.loops.set l x }
 
-/-- loop l leaves Polling: closeConns, engine.shutdown; its queue is not looked at again -/
+/-- descriptors still waiting in the queue of loop x -/
+def pendingOf (x : Loop) : List Nat :=
+  x.queue.filterMap fun t => match t with | .register fd => some fd | .sentinel => none
+
+/-- loop l leaves Polling: closeConns, then the registrations still in its queue are aborted (closed, their callers
+told), engine.shutdown -/
 def exitLoop (s : State) (l : Nat) (x : Loop) : State :=
-  { setLoop s l { x with running := false, conns := [] } with
-    closed := s.closed ++ x.conns, ctxCancelled := true }
+  { setLoop s l { x with running := false, conns := [], queue := [] } with
+    closed := s.closed ++ x.conns ++ pendingOf x, ctxCancelled := true,
+    results := s.results ++ (pendingOf x).filter (· ∈ s.enrolled),
+    failed := s.failed ++ (pendingOf x).filter (· ∈ s.enrolled) }
 
 def step (s : State) : Step → State
   | .accept l =>
     match s.loops[l]? with
     | some x =>
       if s.acceptorRunning then
-        { setLoop s l { x with queue := x.queue ++ [.register s.nextFd] } with
-          nextFd := s.nextFd + 1, assigned := s.assigned ++ [(s.nextFd, l)] }
+        if x.running then
+          { setLoop s l { x with queue := x.queue ++ [.register s.nextFd] } with
+            nextFd := s.nextFd + 1, assigned := s.assigned ++ [(s.nextFd, l)] }
+        else -- the chosen loop has exited: the acceptor aborts the registration itself
+          { s with nextFd := s.nextFd + 1, assigned := s.assigned ++ [(s.nextFd, l)], closed := s.closed ++ [s.nextFd] }
       else s
     | none => s
   | .exec l =>
@@ -104,8 +121,12 @@ def step (s : State) : Step → State
     match s.loops[l]? with
     | some x =>
       if ¬ s.inShutdown then
-        { setLoop s l { x with queue := x.queue ++ [.register s.nextFd] } with
-          nextFd := s.nextFd + 1, assigned := s.assigned ++ [(s.nextFd, l)], enrolled := s.enrolled ++ [s.nextFd] }
+        if x.running then
+          { setLoop s l { x with queue := x.queue ++ [.register s.nextFd] } with
+            nextFd := s.nextFd + 1, assigned := s.assigned ++ [(s.nextFd, l)], enrolled := s.enrolled ++ [s.nextFd] }
+        else -- the chosen loop has exited: the call is answered with an error, its descriptor closed
+          { s with nextFd := s.nextFd + 1, assigned := s.assigned ++ [(s.nextFd, l)], enrolled := s.enrolled ++ [s.nextFd],
+                   closed := s.closed ++ [s.nextFd], results := s.results ++ [s.nextFd], failed := s.failed ++ [s.nextFd] }
       else s
     | none => s
   | .setFlag => if !s.acceptorRunning && s.loops.all (!·.running) then { s with inShutdown := true } else s
@@ -121,10 +142,6 @@ def Final (s : State) : Bool := !s.acceptorRunning && s.loops.all (!·.running)
 
 /-- accepted Register/Enroll calls whose caller never got a result -/
 def unanswered (s : State) : List Nat := s.enrolled.filter (· ∉ s.results)
-
-/-- descriptors still waiting in the queue of loop x -/
-def pendingOf (x : Loop) : List Nat :=
-  x.queue.filterMap fun t => match t with | .register fd => some fd | .sentinel => none
 
 def pending (s : State) : List Nat := (s.loops.map pendingOf).flatten
 def registered (s : State) : List Nat := (s.loops.map (·.conns)).flatten
